@@ -76,6 +76,11 @@ Proof.
 Qed.
 
 (* ------------------------------------------------------------------ JWS: parse (FullSerialize o) *)
+Lemma decode_member_none : decode_member None = Ok [].
+Proof. reflexivity. Qed.
+Lemma has_nonce_none : has_nonce None = false.
+Proof. reflexivity. Qed.
+
 Local Opaque b64url_encode decode_member has_nonce.
 
 Section JwsJson.
@@ -185,3 +190,196 @@ Proof.
   intros E NE. unfold psig_merged. rewrite E. rewrite merged_protected_wins by (cbn; auto).
   destruct (hget ph n_alg); [contradiction|reflexivity].
 Qed.
+
+(* ------------------------------------------------------------------ JWE: parse (FullSerialize o) *)
+Section JweJson.
+  Variable hdr_dec : bytes -> option header.
+
+  Definition view_jwe (o : jwe_obj) : pjwe :=
+    {| pe_prot := eo_prot o; pe_phdr := Some (eo_ph o); pe_unprot := eo_unprot o; pe_recips := eo_recips o;
+       pe_aad := eo_aad o; pe_iv := eo_iv o; pe_ct := eo_ct o; pe_tag := eo_tag o |}.
+
+  Definition wf_recip (r : jrecip) : Prop := wf_bytes (rc_key r) /\ has_nonce (rc_hdr r) = false.
+
+  (* an object as Encrypt produced it: non-empty protected header (it carries enc) whose bytes are
+     the encoding of its value, no nonce in unprotected headers, at least one recipient, and alg/enc
+     present in every recipient's merged header *)
+  Definition wf_jwe_obj (o : jwe_obj) : Prop :=
+    wf_bytes (eo_prot o) /\ eo_prot o <> [] /\ hdr_dec (eo_prot o) = Some (eo_ph o) /\
+    has_nonce (eo_unprot o) = false /\ eo_recips o <> [] /\ (forall r, In r (eo_recips o) -> wf_recip r) /\
+    forallb (recip_ok (Some (eo_ph o)) (eo_unprot o)) (eo_recips o) = true /\
+    wf_bytes (eo_aad o) /\ wf_bytes (eo_iv o) /\ wf_bytes (eo_ct o) /\ wf_bytes (eo_tag o).
+
+  Definition key_member (k : bytes) : option bytes := if is_nil k then None else Some (b64url_encode k).
+
+  Lemma decode_key_member k : wf_bytes k -> decode_member (key_member k) = Ok k.
+  Proof.
+    intro W. unfold key_member. destruct k as [|k0 k]; cbn [is_nil]; [apply decode_member_none|].
+    apply decode_member_enc. exact W.
+  Qed.
+
+  (* members of the serialized object, one lemma per lookup *)
+  Lemma jwe_members p0 p ph u rs a iv ct tag :
+    let o := {| eo_prot := p0 :: p; eo_ph := ph; eo_unprot := u; eo_recips := rs; eo_aad := a;
+                eo_iv := iv; eo_ct := ct; eo_tag := tag |} in
+    jstr (jwe_full o) n_protected = Some (b64url_encode (p0 :: p)) /\
+    jstr (jwe_full o) n_iv = Some (b64url_encode iv) /\
+    jstr (jwe_full o) n_ciphertext = Some (b64url_encode ct) /\
+    jstr (jwe_full o) n_tag = Some (b64url_encode tag).
+  Proof.
+    cbn zeta. unfold jwe_full, key_member. cbn [eo_prot eo_unprot eo_recips eo_aad eo_iv eo_ct eo_tag is_nil negb opt_member].
+    destruct u as [u|]; destruct a as [|a0 a]; cbn [is_nil negb opt_member app]; repeat split; reflexivity.
+  Qed.
+
+  Lemma jwe_members_flat p0 p ph u r a iv ct tag :
+    let o := {| eo_prot := p0 :: p; eo_ph := ph; eo_unprot := u; eo_recips := [r]; eo_aad := a;
+                eo_iv := iv; eo_ct := ct; eo_tag := tag |} in
+    jarr (jwe_full o) n_recipients = [] /\ jhdr (jwe_full o) n_header = rc_hdr r /\
+    jstr (jwe_full o) n_encrypted_key = key_member (rc_key r) /\ jstr (jwe_full o) n_aad = key_member a /\
+    jhdr (jwe_full o) n_unprotected = u.
+  Proof.
+    cbn zeta. unfold jwe_full, key_member, recip_members.
+    cbn [eo_prot eo_unprot eo_recips eo_aad eo_iv eo_ct eo_tag is_nil negb opt_member].
+    destruct u as [u|]; destruct a as [|a0 a]; destruct r as [[h|] [|k0 k]];
+      cbn [rc_hdr rc_key is_nil negb opt_member app map lift_leaf]; repeat split; reflexivity.
+  Qed.
+
+  Lemma jwe_members_general p0 p ph u r1 r2 rest a iv ct tag :
+    let o := {| eo_prot := p0 :: p; eo_ph := ph; eo_unprot := u; eo_recips := r1 :: r2 :: rest; eo_aad := a;
+                eo_iv := iv; eo_ct := ct; eo_tag := tag |} in
+    jarr (jwe_full o) n_recipients = map recip_members (r1 :: r2 :: rest) /\ jhdr (jwe_full o) n_header = None /\
+    jstr (jwe_full o) n_aad = key_member a /\ jhdr (jwe_full o) n_unprotected = u.
+  Proof.
+    cbn zeta. unfold jwe_full, key_member.
+    cbn [eo_prot eo_unprot eo_recips eo_aad eo_iv eo_ct eo_tag is_nil negb opt_member].
+    destruct u as [u|]; destruct a as [|a0 a]; destruct (rc_key r1) as [|k0 k];
+      cbn [is_nil negb opt_member app]; repeat split; reflexivity.
+  Qed.
+
+  Lemma parse_recip_members r : wf_recip r -> parse_recip (recip_members r) = Ok r.
+  Proof.
+    intros (Wk & Hn). destruct r as [h k]. cbn [rc_hdr rc_key] in *. unfold parse_recip, recip_members.
+    cbn [rc_hdr rc_key].
+    assert (E1 : jstr1 (match h with Some h0 => [(n_header, LHdr h0)] | None => [] end ++
+                        opt_member n_encrypted_key (negb (is_nil k)) (LStr (b64url_encode k))) n_encrypted_key = key_member k)
+      by (unfold key_member; destruct h; destruct k; reflexivity).
+    assert (E2 : jhdr1 (match h with Some h0 => [(n_header, LHdr h0)] | None => [] end ++
+                        opt_member n_encrypted_key (negb (is_nil k)) (LStr (b64url_encode k))) n_header = h)
+      by (destruct h; destruct k; reflexivity).
+    rewrite E1, E2, (decode_key_member k Wk). cbn [bind]. rewrite Hn. reflexivity.
+  Qed.
+
+  Lemma parse_jwe_full_serialize o :
+    wf_jwe_obj o -> parse_jwe_full hdr_dec (jwe_full o) = Ok (view_jwe o).
+  Proof.
+    intros (Wp & NE & Hd & Hnu & NR & Wr & Hok & Wa & Wi & Wc & Wt).
+    destruct o as [p ph u rs a iv ct tag]. cbn [eo_prot eo_ph eo_unprot eo_recips eo_aad eo_iv eo_ct eo_tag] in *.
+    destruct p as [|p0 p]; [contradiction|].
+    destruct (jwe_members p0 p ph u rs a iv ct tag) as (M1 & M3 & M4 & M5). cbn zeta in *.
+    unfold parse_jwe_full, view_jwe. cbn [eo_prot eo_ph eo_unprot eo_recips eo_aad eo_iv eo_ct eo_tag].
+
+    destruct rs as [|r1 [|r2 rest]]; [contradiction| |].
+    - destruct r1 as [h k].
+      destruct (jwe_members_flat p0 p ph u {| rc_hdr := h; rc_key := k |} a iv ct tag) as (F1 & F2 & F3 & F4 & F5). cbn zeta in *.
+      cbn [rc_hdr rc_key] in *.
+      rewrite M1, M3, M4, M5, F1, F2, F3, F4, F5, Hnu, (decode_key_member a Wa). destruct (Wr _ (or_introl eq_refl)) as [Wk Hnr]. cbn [rc_hdr rc_key] in *. rewrite Hnr.
+      rewrite (decode_member_enc _ Wp), (decode_member_enc _ Wi), (decode_member_enc _ Wc), (decode_member_enc _ Wt).
+      cbn [orb bind is_nil]. rewrite Hd. cbn [bind]. rewrite (decode_key_member _ Wk). cbn [bind]. rewrite Hok. cbn [negb bind]. reflexivity.
+    - destruct (jwe_members_general p0 p ph u r1 r2 rest a iv ct tag) as (G1 & G2 & G3 & G4). cbn zeta in *.
+      rewrite M1, M3, M4, M5, G1, G2, G3, G4, Hnu, (decode_key_member a Wa), has_nonce_none.
+      rewrite (decode_member_enc _ Wp), (decode_member_enc _ Wi), (decode_member_enc _ Wc), (decode_member_enc _ Wt).
+      cbn [orb bind is_nil]. rewrite Hd. cbn [bind map].
+      change (recip_members r1 :: recip_members r2 :: map recip_members rest) with (map recip_members (r1 :: r2 :: rest)).
+      rewrite (map_res_map recip_members parse_recip (fun r => r)) by (intros x Hx; apply parse_recip_members, Wr, Hx).
+      rewrite map_id. cbn [bind]. rewrite Hok. cbn [negb bind]. reflexivity.
+  Qed.
+
+  Variable json_enc : jobj -> bytes.
+  Variable json_dec : bytes -> option jobj.
+  Hypothesis json_roundtrip : forall o, json_dec (json_enc o) = Some o.
+  Hypothesis json_text : forall o, strip_ws (json_enc o) = json_enc o /\ starts_with_brace (json_enc o) = true.
+
+  Lemma parse_encrypted_full_serialize o :
+    wf_jwe_obj o -> parse_encrypted_json json_dec hdr_dec (json_enc (jwe_full o)) = Ok (view_jwe o).
+  Proof.
+    intro W. unfold parse_encrypted_json. destruct (json_text (jwe_full o)) as [-> ->].
+    rewrite json_roundtrip. apply parse_jwe_full_serialize. exact W.
+  Qed.
+
+  (* the decrypter's AAD is the encrypter's: computed from the protected bytes as received *)
+  Lemma pjwe_aad_view o :
+    pjwe_aad (view_jwe o) = aad_input (eo_prot o) (if is_nil (eo_aad o) then None else Some (eo_aad o)).
+  Proof. reflexivity. Qed.
+End JweJson.
+
+(* ------------------------------------------------------------------ ACME *)
+(* key authorization = token '.' base64url(thumbprint): the two parts are recovered by splitting at
+   the dot (tokens are base64url text, so they contain none), hence it determines both *)
+Lemma key_authorization_split token thumb :
+  no_dot token -> split_dot (key_authorization token thumb) = [token; b64url_encode thumb].
+Proof.
+  intro H. unfold key_authorization. rewrite split_dot_app by exact H.
+  rewrite split_dot_no_dot by apply enc_no_dot. reflexivity.
+Qed.
+
+Lemma key_authorization_injective t th t' th' :
+  no_dot t -> no_dot t' -> wf_bytes th -> wf_bytes th' ->
+  key_authorization t th = key_authorization t' th' -> t = t' /\ th = th'.
+Proof.
+  intros Ht Ht' W W' E. unfold key_authorization in E. apply app_dot_inj in E; try assumption.
+  destruct E as [-> E]. split; [reflexivity|]. apply b64url_encode_injective; assumption.
+Qed.
+
+Section Acme.
+  Variable hdr_enc : header -> bytes.
+  Variable hdr_dec : bytes -> option header.
+  (* encoding/json of the protected header struct, as an oracle pair *)
+  Hypothesis hdr_roundtrip : forall h, hdr_dec (hdr_enc h) = Some h.
+  Hypothesis hdr_wf : forall h, wf_bytes (hdr_enc h) /\ hdr_enc h <> [].
+  Variable sign : bytes -> bytes.
+  Hypothesis sign_wf : forall m, wf_bytes (sign m).
+
+  Lemma hdr_enc_injective h h' : hdr_enc h = hdr_enc h' -> h = h'.
+  Proof. intro E. pose proof (hdr_roundtrip h) as H. rewrite E, hdr_roundtrip in H. congruence. Qed.
+
+  (* the request the client posts parses back to: the content, and one signature whose protected
+     header -- the bytes that are signed -- carries alg, the account jwk and the nonce; there is no
+     unprotected header, so the parser's "nonce must be protected" rule is met *)
+  Lemma acme_request_parses alg jwk nonce content :
+    wf_bytes content ->
+    let h := acme_header alg jwk nonce in
+    parse_jws_full hdr_dec (jws_full (acme_request hdr_enc sign alg jwk nonce content)) =
+    Ok (content, [{| ps_prot := hdr_enc h; ps_phdr := Some h; ps_hdr := None;
+                     ps_sig := sign (signing_input (hdr_enc h) content) |}]).
+  Proof.
+    intros Wc h. destruct (hdr_wf h) as [Wh NEh].
+    rewrite (parse_jws_full_serialize hdr_dec).
+    - unfold acme_request. cbn [jo_payload jo_sigs map]. unfold view_sig. cbn [se_prot se_ph se_hdr se_sig].
+      fold h. destruct (hdr_enc h) eqn:E; [contradiction|]. reflexivity.
+    - unfold wf_jws_obj, acme_request. cbn [jo_payload jo_sigs]. split; [exact Wc|]. split; [discriminate|].
+      intros s [<-|[]]. unfold wf_sig. cbn [se_prot se_ph se_hdr se_sig]. fold h.
+      repeat split; auto.
+  Qed.
+
+  Lemma acme_merged_fields alg jwk nonce :
+    let s := {| ps_prot := hdr_enc (acme_header alg jwk nonce); ps_phdr := Some (acme_header alg jwk nonce);
+                ps_hdr := None; ps_sig := [] |} in
+    hget (psig_merged s) n_alg = alg /\ hget (psig_merged s) n_nonce = nonce /\ hget (psig_merged s) n_jwk = jwk.
+  Proof.
+    cbn zeta. unfold psig_merged. cbn [ps_phdr ps_hdr].
+    rewrite !merged_protected_wins by (cbn; auto 15).
+    unfold acme_header. vm_compute hget. cbn [hget_opt].
+    destruct alg; destruct nonce; destruct jwk; auto.
+  Qed.
+
+  (* the nonce is bound by the signature: the signing input of a request with another nonce is
+     another string, so (under an ideal signature) the old signature does not verify for it *)
+  Lemma acme_nonce_bound alg jwk nonce nonce' content :
+    wf_bytes content -> nonce' <> nonce ->
+    signing_input (hdr_enc (acme_header alg jwk nonce')) content <>
+    signing_input (hdr_enc (acme_header alg jwk nonce)) content.
+  Proof.
+    intros Wc NE E. apply signing_input_injective in E; try assumption; try apply hdr_wf.
+    destruct E as [E _]. apply hdr_enc_injective in E. unfold acme_header in E. inversion E. contradiction.
+  Qed.
+End Acme.
